@@ -7,7 +7,7 @@
  "replace_calls": {"funcinst": "rec_funcinst"},
  "loop_contracts": {"funccopy": [{"loop_id": "0",
      "assigns": "off, tmp, src, dst, g",
-     "invariants": "g.phase == 0 && off == g.pos && g.srcoff == off && g.dstoff == off && g.cursrc == src && g.curdst == dst && off < size && (off & ((unsigned long long)align - 1)) == 0 && align == g_chunk && inc != 0 && inc->kind == k_intconst && inc->u.i == (unsigned long long)align && g.ok_seq && g.ok_op && g.ok_src && g.ok_dst && g.ok_val && g.ok_inc && g.ok_contig && g.ok_mirror && g.ok_inrange && g.ok_natural && (g.bcov == (g_b < off))",
+     "invariants": "g.phase == 0 && off == g.pos && g.srcoff == off && g.dstoff == off && g.cursrc == src && g.curdst == dst && src != 0 && dst != 0 && off < size && (off & ((unsigned long long)align - 1)) == 0 && align == g_chunk && inc != 0 && inc->kind == k_intconst && inc->u.i == (unsigned long long)align && g.ok_seq && g.ok_op && g.ok_src && g.ok_dst && g.ok_val && g.ok_inc && g.ok_contig && g.ok_mirror && g.ok_inrange && g.ok_natural && (g.bcov == (g_b < off))",
      "decreases": "size - off",
      "symbol_map": "off,funccopy::1::off;tmp,funccopy::1::tmp;inc,funccopy::1::inc;src,funccopy::src;dst,funccopy::dst;size,funccopy::size;align,funccopy::align;g,g;g_chunk,g_chunk;g_b,g_b;k_intconst,k_intconst"}]},
  "loops_expected": {"funccopy": 1},
